@@ -4,12 +4,16 @@
   accepts — create, write, chmod, delete, recursive delete, rename or replace of files and directories at any
   depth, moves out of the tree, moves of files or whole directory trees into it (and back), operations outside.
 
-  `_partial`: the regime "file operations back to back, directory operations paced" of the property is not in
-  the model (the reader never lags behind the operations here); it is exercised on the real observer only.  The
-  history does not remove the watched root itself (that case is C07.root_deleted: one DirDeletedEvent, stop).
+  `_partial`: of the regime "file operations back to back, directory operations paced" the model has the bursts of
+  file creations / writes / attribute changes / file removals (`burst_simple_partial`: the reader sees the whole burst
+  as one batch and looks at the file system as it is after the last operation); bursts with renames and nested
+  directory creation are exercised on the real observer only.  The history does not remove the watched root itself
+  (that case is C07.root_deleted: one DirDeletedEvent, stop).
 -/
 import WD.Proofs.Pipeline.ReplayRun
 import WD.Proofs.Pipeline.ReplayFlat
+import WD.Proofs.Pipeline.Burst
+import WD.Proofs.Pipeline.Theorems
 namespace WD.C01
 open WD WD.Pipe
 
@@ -54,5 +58,39 @@ example :
     allValid (Sys.start fs0 true false) ops = true ∧ Op.rmdir ["W"] ∉ ops ∧
     treeW ((Sys.start fs0 true false).run ops).1.fs = [(["W", "b"], false)] ∧
     replay (treeW fs0) (allEvents ((Sys.start fs0 true false).run ops)) = [(["W", "b"], false)] := by decide +kernel
+
+/-- **back to back**: after any drained history, a burst of file creations, writes, attribute changes and file removals
+    ("file operations may follow each other without limit") that the reader only gets to see as ONE batch after the
+    last of them - looking at the file system as it is then - leaves the observer in the same state and delivers the
+    same events in the same order as the same operations drained one by one.  Every statement about drained
+    histories (the replay above, coverage, the per-operation contract) therefore also holds with such bursts in them. -/
+theorem burst_simple_partial (fs0 : FS) (hwf : fs0.WF) (full : Bool) (pre burst : List Op)
+    (hv : allValid (Sys.start fs0 true full) pre = true) (hroot : Op.rmdir ["W"] ∉ pre)
+    (hb : allSimple ((Sys.start fs0 true full).run pre).1 burst = true) :
+    ((Sys.start fs0 true full).run pre).1.burst burst =
+      ((((Sys.start fs0 true full).run pre).1.run burst).1, (((Sys.start fs0 true full).run pre).1.run burst).2.flatten) := by
+  obtain ⟨inv, hs, hc, _, _⟩ := start_rec fs0 hwf full
+  have hr := run_rec _ pre inv hs hc hv
+  have hst : ((Sys.start fs0 true full).run pre).1.stopped = false := by
+    cases h : ((Sys.start fs0 true full).run pre).1.stopped
+    · rfl
+    · exact absurd ((stopped_iff _ pre inv hs hc hv).1 h) hroot
+  exact burst_simple _ burst (hr.2.2 hst) hst hr.2.1 hb
+
+/-- non-vacuity: a storm on one name inside a directory created before, read as one batch -/
+example :
+    let s := ((Sys.start FS.init true false).run [.mkdir ["W", "d"]]).1
+    let ops := [Op.create ["W", "d", "a"], .write ["W", "d", "a"], .chmod ["W", "d"], .unlink ["W", "d", "a"], .create ["W", "d", "a"]]
+    allSimple s ops = true ∧
+    (s.burst ops).2.map PEv.toEvent =
+      [⟨.FileCreatedEvent, "W/d/a", "", false⟩, ⟨.DirModifiedEvent, "W/d", "", false⟩, ⟨.FileOpenedEvent, "W/d/a", "", false⟩,
+       ⟨.FileClosedEvent, "W/d/a", "", false⟩, ⟨.DirModifiedEvent, "W/d", "", false⟩,
+       ⟨.FileOpenedEvent, "W/d/a", "", false⟩, ⟨.FileModifiedEvent, "W/d/a", "", false⟩, ⟨.FileClosedEvent, "W/d/a", "", false⟩,
+       ⟨.DirModifiedEvent, "W/d", "", false⟩,
+       ⟨.DirModifiedEvent, "W/d", "", false⟩, ⟨.DirModifiedEvent, "W/d", "", false⟩,
+       ⟨.FileDeletedEvent, "W/d/a", "", false⟩, ⟨.DirModifiedEvent, "W/d", "", false⟩,
+       ⟨.FileCreatedEvent, "W/d/a", "", false⟩, ⟨.DirModifiedEvent, "W/d", "", false⟩, ⟨.FileOpenedEvent, "W/d/a", "", false⟩,
+       ⟨.FileClosedEvent, "W/d/a", "", false⟩, ⟨.DirModifiedEvent, "W/d", "", false⟩] := by
+  decide +kernel
 
 end WD.C01
